@@ -31,7 +31,7 @@ func init() {
 			"fragmenting readers obey the io.Reader contract: at least one byte or an error per call for non-empty p; n > 0 may come together with io.EOF",
 			"failure kinds: ok / tracks missing / end-of-data family / other",
 		},
-		Require: []string{"fragmented_reads", "short_reads_in_multibyte_field", "split_points", "eof_with_data_reads", "truncated_files", "compared_ok_values", "compared_failures", "big_payload_files", "big_truncated_reads", "file_and_bufio_reads", "pipe_reads"},
+		Require: []string{"fragmented_reads", "short_reads_in_multibyte_field", "split_points", "eof_with_data_reads", "truncated_files", "compared_ok_values", "compared_failures", "big_payload_files", "big_truncated_reads", "file_and_bufio_reads", "pipe_reads", "extended_header_files"},
 		Run:     runC09,
 	})
 }
@@ -73,6 +73,16 @@ func runC09(c *mon.Ctx) {
 			c.Count("big_payload_files", 1)
 		}
 		b := f.Bytes(nil)
+		if i%7 == 3 {
+			// the header chunk may declare more than 6 bytes (future extension): whatever the library does
+			// with such a file, it must not depend on the fragmentation
+			extra := r.Pick(2, 4, 10, 1)
+			nb := append([]byte(nil), b[:14]...)
+			nb[7] = byte(6 + extra)
+			nb = append(nb, r.Bytes(extra)...)
+			b = append(nb, b[14:]...)
+			c.Count("extended_header_files", 1)
+		}
 		if i%3 == 1 && len(b) > 15 {
 			b = b[:14+r.Intn(len(b)-14)]
 			c.Count("truncated_files", 1)
